@@ -18,28 +18,35 @@ CONSTANTS TTLS,         \* informer TTLs explored (multiples of 4)
           QuarterDiv,   \* code: 4
           PingMul,      \* code: 2
           MaxErrInf,    \* consecutive informer publish errors tolerated by the clause (1)
-          MaxErrPing    \* consecutive ping publish errors tolerated (0: after one lost ping the next one is
+          MaxErrPing,   \* consecutive ping publish errors tolerated (0: after one lost ping the next one is
                         \* sent exactly at the expiry instant of the previous - the code has no margin there)
+          MaxBurst      \* longest burst of consecutive informer publish errors explored (code: retryWarnMod + 1)
 
-VARIABLES kind, ttl, d, errs
-vars == <<kind, ttl, d, errs>>
+VARIABLES kind, ttl, d, errs, gap     \* gap: time from this attempt to the next one
+vars == <<kind, ttl, d, errs, gap>>
 
-Init == \/ /\ kind = "informer" /\ ttl \in TTLS      /\ d = ttl - ttl \div HalfDiv /\ errs = 0
-        \/ /\ kind = "ping"     /\ ttl \in INTERVALS /\ d = PingMul * ttl - ttl    /\ errs = 0
+Init == \/ /\ kind = "informer" /\ ttl \in TTLS      /\ d = ttl - ttl \div HalfDiv /\ errs = 0 /\ gap = ttl \div HalfDiv
+        \/ /\ kind = "ping"     /\ ttl \in INTERVALS /\ d = PingMul * ttl - ttl    /\ errs = 0 /\ gap = ttl
 
 PublishOK ==
     /\ errs' = 0
-    /\ d' = IF kind = "informer" THEN ttl - ttl \div HalfDiv ELSE PingMul * ttl - ttl
+    /\ gap' = IF kind = "informer" THEN ttl \div HalfDiv ELSE ttl
+    /\ d' = IF kind = "informer" THEN ttl - gap' ELSE PingMul * ttl - gap'
     /\ UNCHANGED <<kind, ttl>>
+\* the error branch re-arms the timer on EVERY error (the warning is what is rate limited by retryWarnMod)
 PublishErr ==
-    /\ errs < (IF kind = "informer" THEN MaxErrInf ELSE MaxErrPing)
+    /\ errs < (IF kind = "informer" THEN MaxBurst ELSE MaxErrPing)
     /\ errs' = errs + 1
-    /\ d' = IF kind = "informer" THEN d - ttl \div QuarterDiv ELSE d - ttl
+    /\ gap' = IF kind = "informer" THEN ttl \div QuarterDiv ELSE ttl
+    /\ d' = d - gap'
     /\ UNCHANGED <<kind, ttl>>
 Next == PublishOK \/ PublishErr
 Spec == Init /\ [][Next]_vars
 
-Cadence == d > 0
+\* the previous good metric is still unexpired at every attempt that follows at most MaxErr consecutive errors
+Cadence == errs <= (IF kind = "informer" THEN MaxErrInf ELSE MaxErrPing) => d > 0
+\* whatever the burst of errors, the loop keeps trying: publishing resumes well within one TTL after the errors stop
+Resume  == gap > 0 /\ (kind = "informer" => gap * HalfDiv <= ttl)
 
 -----------------------------------------------------------------------------
 (* The same clause on publish events recorded from a real Cluster:          *)
@@ -56,6 +63,9 @@ Misses(q, maxErr) ==
 TailMiss(q, maxErr, end) ==
     LET j == PrevOK(q, Len(q) + 1)
     IN j # 0 /\ ErrsBetween(q, j, Len(q) + 1) <= maxErr /\ q[j].exp <= end
+\* a failed attempt after which the loop did not try again before that metric's own TTL had passed
+Stalls(q, end) ==
+    {i \in 1..Len(q) : ~q[i].ok /\ (IF i < Len(q) THEN q[i + 1].t ELSE end) >= q[i].exp}
 \* attempts that came later than the transcription says, beyond the slack (scheduling delay, or a changed divisor)
 Nominal(q, i, ivl) ==
     IF q[i].kind = "ping" THEN ivl
